@@ -38,6 +38,25 @@ def coeff_tensors(rng, n, kind):
         if n >= 2:
             i, j = rng.choice(n, size=2, replace=False)
             vi[i, j, j, i] += 1.0           # exchange-only entry (zero pattern not symmetric under index swaps)
+    elif kind == 'exchange':       # a few exchange / pair-hopping / density-density entries (sparse: cheap reference also for many orbitals)
+        tk = np.zeros((n, n)); vi = np.zeros((n,) * 4)
+        for _ in range(int(rng.integers(2, 5))):
+            i, j = (int(x) for x in rng.choice(n, size=2, replace=(n < 2)))
+            pat = int(rng.integers(4))
+            idx = [(i, j, j, i), (i, i, j, j), (i, j, i, j), (i, j, j, j)][pat]
+            vi[idx] += float(rng.integers(1, 4)) * (1 if rng.random() < 0.7 else -1)
+        tk[int(rng.integers(n)), int(rng.integers(n))] = float(rng.integers(1, 3))
+    elif kind == 'split':          # interaction entries with two orbitals in the left and two in the right half, in every index position
+        tk = np.zeros((n, n)); vi = np.zeros((n,) * 4)
+        h = max(1, n // 2)
+        lo = h + 1 if (n - h >= 3 and rng.random() < 0.6) else h          # often strictly to the right of the centre orbital
+        for _ in range(int(rng.integers(8, 17))):
+            left = [int(rng.integers(0, h)) for _ in range(2)]
+            right = [int(x) for x in rng.choice(np.arange(lo, n), size=2, replace=(n - lo < 2))] if n > lo else [0, 0]
+            idx = left + right
+            perm = rng.permutation(4)
+            vi[tuple(idx[k] for k in perm)] += float(rng.integers(1, 4)) * (1 if rng.random() < 0.7 else -1)
+        tk[int(rng.integers(n)), int(rng.integers(n))] = float(rng.integers(1, 3))
     elif kind == 'padded':
         tk = np.zeros((n, n)); vi = np.zeros((n,) * 4)
         m = max(1, n - 1)
@@ -195,7 +214,7 @@ def run(ctx):
                     cases.append(dict(t='mol', n=n, spin=False, kind=kind, paths=paths, tlc=bool(n <= 4 and rep == 0 and kind in ('dense', 'gauss', 'unit_v', 'sparse', 'symmetric')),
                                       seed=int(rng.integers(1 << 30))))
         for n in range(1, ctx.pick(5, 6) + 1):
-            for kind in (['dense', 'unit_v', 'gauss', 'sparse'] if n <= 3 else ['unit_t']):
+            for kind in (['dense', 'unit_v', 'gauss', 'sparse', 'exchange'] if n <= 3 else ['unit_t', 'exchange', 'split', 'split', 'split', 'split', 'unit_v']):
                 paths = ([True] if n <= 3 else []) + ([False] if n >= 2 else [])
                 cases.append(dict(t='mol', n=n, spin=True, kind=kind, paths=paths, tlc=bool(n <= 2 and kind in ('dense', 'gauss', 'unit_v')),
                                   seed=int(rng.integers(1 << 30))))
